@@ -25,44 +25,54 @@ rm -f "$LOG"
 BIN="$TD/x86_64-unknown-linux-gnu/release"
 rc=0
 pids=()
+NT=$(echo $TARGETS | wc -w)
+# several independent libFuzzer processes per target (different seeds, own corpus copies): J = cores / targets
+J=${VH_FUZZ_JOBS:-$(( $(nproc) / NT ))}; [ "$J" -lt 1 ] && J=1; [ "$J" -gt 8 ] && J=8
 for t in $TARGETS; do
+ for j in $(seq 1 $J); do
   (
-    C=/verif/work/fuzz-corpus-$t-$$; rm -rf "$C"; mkdir -p "$C"
+    C=/verif/work/fuzz-corpus-$t-$$-$j; rm -rf "$C"; mkdir -p "$C"
+    L=/verif/work/fuzz-$t-$$-$j.log
     [ -d fuzz/seeds/$t ] && cp fuzz/seeds/$t/* "$C"/ 2>/dev/null
-    # parse_diff starts from the seeds of both parser targets
+    # parse_diff and print_roundtrip start from the seeds of both parser targets
     if [ "$t" = parse_diff ] || [ "$t" = print_roundtrip ]; then cp fuzz/seeds/parse_op/* fuzz/seeds/parse_schema/* "$C"/ 2>/dev/null; fi
     A=/verif/replays/$PROP/fuzz-$t-
-    # fixed work per target, scaled by its speed (structured: ~150 exec/s, pipeline: ~1.5k, parsers: ~6k)
-    case $t in structured) R=$((RUNS/20));; pipeline) R=$((RUNS/4));; *) R=$RUNS;; esac
-    "$BIN/$t" "$C" -runs="$R" -seed="$LSEED" -len_control=0 -max_len=8192 -timeout=30 -rss_limit_mb=4096 -detect_leaks=0 \
-        -artifact_prefix="$A" -print_final_stats=1 >/verif/work/fuzz-$t-$$.log 2>&1
+    # fixed work per target, scaled by its speed (structured: ~150 exec/s, loader_history: ~300, pipeline: ~1.5k, parsers: ~6k),
+    # divided over the J processes
+    case $t in structured) R=$((RUNS/20));; pipeline) R=$((RUNS/4));; loader_history) R=$((RUNS/8));; *) R=$RUNS;; esac
+    R=$(( (R + J - 1) / J ))
+    "$BIN/$t" "$C" -runs="$R" -seed="$((LSEED + 7919 * (j - 1)))" -len_control=0 -max_len=8192 -timeout=30 -rss_limit_mb=4096 -detect_leaks=0 \
+        -artifact_prefix="$A" -print_final_stats=1 >"$L" 2>&1
     code=$?
-    execs=$(grep -E "stat::number_of_executed_units" /verif/work/fuzz-$t-$$.log | awk '{print $2}')
-    cov=$(grep -E " cov: " /verif/work/fuzz-$t-$$.log | tail -1 | sed -E 's/.* cov: ([0-9]+).*/\1/')
+    execs=$(grep -E "stat::number_of_executed_units" "$L" | awk '{print $2}')
+    cov=$(grep -E " cov: " "$L" | tail -1 | sed -E 's/.* cov: ([0-9]+).*/\1/')
     corp=$(ls "$C" | wc -l)
-    echo "FUZZ target=$t execs=${execs:-?} cov=${cov:-?} corpus=$corp exit=$code"
+    echo "FUZZ target=$t job=$j execs=${execs:-?} cov=${cov:-?} corpus=$corp exit=$code"
     if [ $code -ne 0 ]; then
-      art=$(grep -E "Test unit written to" /verif/work/fuzz-$t-$$.log | tail -1 | awk '{print $NF}')
-      grep -E "FUZZ-FAILURE|ERROR: |SUMMARY" /verif/work/fuzz-$t-$$.log | head -5
+      art=$(grep -E "Test unit written to" "$L" | tail -1 | awk '{print $NF}')
+      grep -E "FUZZ-FAILURE|ERROR: |SUMMARY" "$L" | head -5
       if [ -n "$art" ] && [ -f "$art" ]; then
         # reproduce in a fresh process, strict mode (no known-finding tolerance is needed: tolerated
         # failures never abort)
         if "$BIN/$t" "$art" -timeout=30 >/dev/null 2>&1; then
-          echo "INCONCLUSIVE property=$PROP fuzz artifact did not reproduce: $art"; echo 2 > /verif/work/fuzz-rc-$t-$$
+          echo "INCONCLUSIVE property=$PROP fuzz artifact did not reproduce: $art"; echo 2 > /verif/work/fuzz-rc-$t-$$-$j
         else
-          echo "  failure[fuzz-$t] $(grep -m1 FUZZ-FAILURE /verif/work/fuzz-$t-$$.log | cut -c1-300)"
-          echo "VIOLATION property=$PROP replay=$art"; echo 1 > /verif/work/fuzz-rc-$t-$$
+          echo "  failure[fuzz-$t] $(grep -m1 FUZZ-FAILURE "$L" | cut -c1-300)"
+          echo "VIOLATION property=$PROP replay=$art"; echo 1 > /verif/work/fuzz-rc-$t-$$-$j
         fi
       else
-        echo "INCONCLUSIVE property=$PROP libFuzzer exited with $code without an artifact (target $t)"; echo 2 > /verif/work/fuzz-rc-$t-$$
+        echo "INCONCLUSIVE property=$PROP libFuzzer exited with $code without an artifact (target $t)"; echo 2 > /verif/work/fuzz-rc-$t-$$-$j
       fi
     fi
-    rm -rf "$C" /verif/work/fuzz-$t-$$.log
+    rm -rf "$C" "$L"
   ) &
   pids+=($!)
+ done
 done
 for p in "${pids[@]}"; do wait $p; done
-for t in $TARGETS; do
-  if [ -f /verif/work/fuzz-rc-$t-$$ ]; then r=$(cat /verif/work/fuzz-rc-$t-$$); rm -f /verif/work/fuzz-rc-$t-$$; if [ "$r" = 1 ]; then rc=1; elif [ $rc -eq 0 ]; then rc=2; fi; fi
+for f in /verif/work/fuzz-rc-*-$$-*; do
+  [ -f "$f" ] || continue
+  r=$(cat "$f"); rm -f "$f"
+  if [ "$r" = 1 ]; then rc=1; elif [ $rc -eq 0 ]; then rc=2; fi
 done
 exit $rc
